@@ -1,7 +1,7 @@
 (* C05 — lookup: the truncation loop of best_match enumerates exactly RFC 4647 3.4's truncations,
    and lookup is the first hit over (range priority, truncation step, offered order) followed by the
    defaults cascade. *)
-From Coq Require Import NArith List Bool Lia Sorted Permutation.
+From Coq Require Import PeanoNat NArith List Bool Lia Sorted Permutation.
 Require Import Webob.Lib.Val Webob.Lib.PyStr Webob.Model.C05_AcceptLang Webob.Spec.C05_Rfc4647
                Webob.Proofs.C05_sort.
 Import ListNotations.
@@ -25,7 +25,7 @@ Proof.
   - apply N.eqb_eq in E. subst c. rewrite join_cons2, IH. reflexivity.
   - destruct fs as [|g fs].
     + cbn in *. rewrite IH. reflexivity.
-    + rewrite join_cons2. rewrite join_cons2 in IH. cbn [app]. rewrite IH. reflexivity.
+    + rewrite join_cons2. rewrite join_cons2 in IH. rewrite <- IH. reflexivity.
 Qed.
 
 (* ------------------------------------------------------------------ the inner scan *)
@@ -69,10 +69,10 @@ Proof.
   - rewrite (removelast_rev l (b :: rest')), (removelast_rev b rest').
     destruct rest' as [|c r'']; [reflexivity|].
     destruct (rev (c :: r'')) as [|s0 l0] eqn:Er; [exfalso; eapply rev_cons_nonnil; eauto|].
-    rewrite <- Er. apply IH; [discriminate | cbn [length]; lia].
+    rewrite <- Er. apply IH; [discriminate | cbn [length] in *; lia].
   - rewrite (removelast_rev l (b :: rest')).
     destruct (rev (b :: rest')) as [|s0 l0] eqn:Er; [exfalso; eapply rev_cons_nonnil; eauto|].
-    rewrite <- Er. apply IH; [discriminate | cbn [length]; lia].
+    rewrite <- Er. apply IH; [discriminate | cbn [length] in *; lia].
 Qed.
 
 (* best_match(range_) returns the first hit over the truncations of the range, never runs out of fuel *)
@@ -82,11 +82,14 @@ Proof.
   unfold best_match, truncations, truncation_seqs.
   pose proof (split_c_nonnil dash r) as Hne.
   pose proof (join_split dash r) as Hj.
-  set (subs := split_c dash r) in *.
-  rewrite <- (rev_involutive subs) at 2 3. rewrite <- Hj at 1. rewrite <- (rev_involutive subs) at 1.
+  remember (split_c dash r) as subs eqn:Hs. clear Hs.
+  remember (rev subs) as rs eqn:Hrs.
+  assert (Hsubs : subs = rev rs) by (subst rs; symmetry; apply rev_involutive).
+  subst subs. clear Hrs.
+  rewrite <- Hj.
   rewrite bm_loop_spec.
   - rewrite map_map. reflexivity.
-  - intros H. apply (f_equal (@rev str)) in H. rewrite rev_involutive in H. cbn in H. contradiction.
+  - intros ->. apply Hne. reflexivity.
   - rewrite rev_length. lia.
 Qed.
 
@@ -318,3 +321,58 @@ Proof.
   intros Hs Hn. rewrite lookup_is_spec. unfold lookup_spec. rewrite Hn, Hs.
   destruct dt, dn, (is_star_opt dr); auto.
 Qed.
+
+(* ------------------------------------------------------------------ invalid / missing header *)
+Lemma nohdr_spec (tags : list str) dt dn :
+  basic_filtering_nohdr tags = [] /\
+  lookup_nohdr dt dn = match dt with
+                       | Some t => LTag t
+                       | None => if dn then LTypeError else LDefault
+                       end.
+Proof. split; [reflexivity|]. destruct dt, dn; reflexivity. Qed.
+
+(* argument errors, exactly *)
+Definition is_answer (r : lres) : Prop :=
+  match r with LTag _ | LDefault => True | _ => False end.
+
+Lemma lookup_spec_star p tags dr dt dn :
+  ~ (dt = None /\ dn = true) -> is_star_opt dr = true -> lookup_spec p tags dr dt dn = LValueError.
+Proof.
+  intros Hn Hs. unfold lookup_spec. rewrite Hs. destruct dt, dn; try reflexivity. exfalso. apply Hn. auto.
+Qed.
+
+Lemma lookup_spec_answer p tags dr dt dn :
+  ~ (dt = None /\ dn = true) -> is_star_opt dr = false -> is_answer (lookup_spec p tags dr dt dn).
+Proof.
+  intros Hn Hs. unfold lookup_spec. rewrite Hs.
+  destruct dt, dn; try (exfalso; apply Hn; auto; fail);
+    repeat match goal with |- context [match ?x with _ => _ end] => destruct x end; exact I.
+Qed.
+
+Lemma is_star_opt_iff dr : is_star_opt dr = true <-> dr = Some star.
+Proof.
+  destruct dr as [r|]; cbn; [rewrite str_eqb_eq; split; congruence | split; discriminate].
+Qed.
+
+Lemma lookup_errors p tags dr dt dn :
+  (lookup p tags dr dt dn = LTypeError <-> (dt = None /\ dn = true)) /\
+  (lookup p tags dr dt dn = LValueError <-> (~ (dt = None /\ dn = true) /\ dr = Some star)).
+Proof.
+  rewrite lookup_is_spec.
+  assert (Hdec : (dt = None /\ dn = true) \/ ~ (dt = None /\ dn = true)).
+  { destruct dt, dn; try (right; intros [H1 H2]; discriminate); left; auto. }
+  destruct Hdec as [[-> ->]|Hn].
+  - change (lookup_spec p tags dr None true) with LTypeError.
+    split; split; try discriminate; auto. intros [H _]. exfalso. apply H. auto.
+  - destruct (is_star_opt dr) eqn:Es.
+    + rewrite (lookup_spec_star _ _ _ _ _ Hn Es). split; split; try discriminate; try contradiction; auto.
+      intros _. split; [exact Hn | apply is_star_opt_iff; exact Es].
+    + pose proof (lookup_spec_answer p tags dr dt dn Hn Es) as Ha.
+      assert (Hns : dr <> Some star) by (intros H; apply is_star_opt_iff in H; congruence).
+      destruct (lookup_spec p tags dr dt dn); cbn in Ha; try contradiction;
+        (split; split; try discriminate; try contradiction; intros [_ H]; contradiction).
+Qed.
+
+(* text literals for the examples in Props/C05.v *)
+From Coq Require Import String Ascii.
+Definition txt (x : string) : str := map N_of_ascii (list_ascii_of_string x).
